@@ -35,7 +35,7 @@ def plans(ctx):
     return [R.Plan("qr", "S_q1", emit_mod=12, max_inst=2, max_pw=1, stray=2, junk=True, also=RT(40)),
             R.Plan("qr3", "S_t1d", emit_mod=20, max_inst=3, max_pw=1, stray=1),
             R.Plan("t1c", "S_t1c", emit_mod=12, max_inst=1, max_pw=2),
-            R.Plan("two", "S_t1d", emit_mod=40, ids="Ids2", max_inst=1, max_pw=1),
+            R.Plan("two", "S_t1d", emit_mod=40, ids="Ids2", max_inst=1, max_pw=0, pw_on=False),
             R.Plan("sim", "S_t1a", simulate="num=400", depth=60, workers=8, rich=True, ids="Ids2", max_inst=8,
                    max_pw=3, stray=1, junk=True)]
 
